@@ -21,10 +21,17 @@ type asaDev struct {
 	Opaque  []opaqueObj         // VPN objects kept verbatim (tunnel-group / group-policy); may reference ACLs and each other
 	Groups  map[string][]string // object-group network NAME -> member texts
 	GOrder  []string
+	SGroups map[string]*svcGroup // object-group service NAME tcp|udp|tcp-udp -> ports
+	SOrder  []string
 	ACLs    map[string][]string // NAME -> line bodies (text after "extended ")
 	AOrder  []string
 	Bind    map[string]string // "in inside" -> ACL name
 	Routes  []string          // text after "route "
+}
+
+type svcGroup struct {
+	Kind  string   // tcp | udp | tcp-udp
+	Ports []string // "eq 53"
 }
 
 type opaqueObj struct {
@@ -33,7 +40,7 @@ type opaqueObj struct {
 }
 
 func newDev() *asaDev {
-	return &asaDev{Groups: map[string][]string{}, ACLs: map[string][]string{}, Bind: map[string]string{}, Shut: map[string]bool{}}
+	return &asaDev{Groups: map[string][]string{}, SGroups: map[string]*svcGroup{}, ACLs: map[string][]string{}, Bind: map[string]string{}, Shut: map[string]bool{}}
 }
 
 // opaqueRefs tells whether some kept VPN object references the named ACL / group-policy.
@@ -57,6 +64,10 @@ func (d *asaDev) clone() *asaDev {
 		c.Groups[k] = append([]string{}, v...)
 	}
 	c.GOrder = append([]string{}, d.GOrder...)
+	for k, v := range d.SGroups {
+		c.SGroups[k] = &svcGroup{v.Kind, append([]string{}, v.Ports...)}
+	}
+	c.SOrder = append([]string{}, d.SOrder...)
 	for k, v := range d.ACLs {
 		c.ACLs[k] = append([]string{}, v...)
 	}
@@ -92,6 +103,12 @@ func (d *asaDev) print(withIntf bool) string {
 		fmt.Fprintf(&sb, "object-group network %s\n", g)
 		for _, m := range d.Groups[g] {
 			fmt.Fprintf(&sb, " network-object %s\n", m)
+		}
+	}
+	for _, g := range d.SOrder {
+		fmt.Fprintf(&sb, "object-group service %s %s\n", g, d.SGroups[g].Kind)
+		for _, m := range d.SGroups[g].Ports {
+			fmt.Fprintf(&sb, " port-object %s\n", m)
 		}
 	}
 	for _, a := range d.AOrder {
@@ -205,7 +222,29 @@ func (e *executor) exec1(cmd string) error {
 		}
 		e.mode = ""
 		return nil
+	case w[0] == "port-object" || (w[0] == "no" && len(w) > 1 && w[1] == "port-object"):
+		g, ok := d.SGroups[strings.TrimPrefix(e.mode, "svc:")]
+		if !strings.HasPrefix(e.mode, "svc:") || !ok {
+			return fmt.Errorf("sub-command outside object-group service mode: %s", cmd)
+		}
+		if w[0] == "no" {
+			m := canonPort(strings.Join(w[2:], " "))
+			if !contains(g.Ports, m) {
+				return fmt.Errorf("port to remove not in group %s: %s", e.mode, m)
+			}
+			g.Ports = remove(g.Ports, m)
+			return nil
+		}
+		m := canonPort(strings.Join(w[1:], " "))
+		if contains(g.Ports, m) {
+			return fmt.Errorf("port already in group %s: %s", e.mode, m)
+		}
+		g.Ports = append(g.Ports, m)
+		return nil
 	case w[0] == "network-object" || (w[0] == "no" && len(w) > 1 && w[1] == "network-object"):
+		if strings.HasPrefix(e.mode, "svc:") {
+			return fmt.Errorf("network-object inside object-group service mode: %s", cmd)
+		}
 		if e.mode == "" {
 			return fmt.Errorf("sub-command outside object-group mode: %s", cmd)
 		}
@@ -227,8 +266,37 @@ func (e *executor) exec1(cmd string) error {
 	// every other command is a top-level command and leaves the sub-mode
 	e.mode = ""
 	switch {
+	case strings.HasPrefix(cmd, "object-group service ") && len(w) == 4:
+		n, kind := w[2], w[3]
+		if _, ok := d.Groups[n]; ok {
+			return fmt.Errorf("object-group %s exists as network group", n)
+		}
+		if g, ok := d.SGroups[n]; ok {
+			if g.Kind != kind {
+				return fmt.Errorf("object-group service %s exists with protocol type %s, not %s", n, g.Kind, kind)
+			}
+		} else {
+			d.SGroups[n] = &svcGroup{Kind: kind}
+			d.SOrder = append(d.SOrder, n)
+		}
+		e.mode = "svc:" + n
+		return nil
+	case strings.HasPrefix(cmd, "no object-group service "):
+		n := w[3]
+		if _, ok := d.SGroups[n]; !ok {
+			return fmt.Errorf("object-group service %s does not exist", n)
+		}
+		if d.groupReferenced(n) {
+			return fmt.Errorf("object-group %s is still referenced", n)
+		}
+		delete(d.SGroups, n)
+		d.SOrder = remove(d.SOrder, n)
+		return nil
 	case strings.HasPrefix(cmd, "object-group network "):
 		n := w[2]
+		if _, ok := d.SGroups[n]; ok {
+			return fmt.Errorf("object-group %s exists as service group", n)
+		}
 		if _, ok := d.Groups[n]; !ok {
 			d.Groups[n] = nil
 			d.GOrder = append(d.GOrder, n)
@@ -253,6 +321,8 @@ func (e *executor) exec1(cmd string) error {
 		}
 		delete(d.Groups, n)
 		d.GOrder = remove(d.GOrder, n)
+		delete(d.SGroups, n)
+		d.SOrder = remove(d.SOrder, n)
 		return nil
 	case strings.HasPrefix(cmd, "clear configure access-list "):
 		n := w[3]
@@ -293,8 +363,16 @@ func (e *executor) exec1(cmd string) error {
 			return nil
 		}
 		for _, g := range refsOf(body) {
-			if _, ok := d.Groups[g]; !ok {
+			_, okN := d.Groups[g]
+			sg, okS := d.SGroups[g]
+			if !okN && !okS {
 				return fmt.Errorf("referenced object-group %s does not exist", g)
+			}
+			if okS {
+				proto := strings.Fields(body)[1]
+				if !(sg.Kind == proto || sg.Kind == "tcp-udp" && (proto == "tcp" || proto == "udp")) {
+					return fmt.Errorf("object-group service %s has protocol type %s, the entry is for %s", g, sg.Kind, proto)
+				}
 			}
 		}
 		for _, l := range ls {
@@ -401,6 +479,11 @@ func splitScript(out string) []string {
 func (d *asaDev) expand(body string) string {
 	return groupRefRE.ReplaceAllStringFunc(body, func(s string) string {
 		g := strings.TrimPrefix(s, "object-group ")
+		if sg, ok := d.SGroups[g]; ok {
+			m := append([]string{}, sg.Ports...)
+			sort.Strings(m)
+			return "{service " + sg.Kind + ":" + strings.Join(m, ",") + "}"
+		}
 		m := append([]string{}, d.Groups[g]...)
 		sort.Strings(m)
 		return "{" + strings.Join(m, ",") + "}"
@@ -444,6 +527,16 @@ func canonBody(body string) string {
 			if n, ok := portNames[w[i+1]]; ok {
 				w[i+1] = n
 			}
+		}
+	}
+	return strings.Join(w, " ")
+}
+
+func canonPort(m string) string {
+	w := strings.Fields(m)
+	if len(w) == 2 && w[0] == "eq" {
+		if n, ok := portNames[w[1]]; ok {
+			w[1] = n
 		}
 	}
 	return strings.Join(w, " ")
